@@ -56,6 +56,12 @@ def systematic_streams(ctx):
                 pad = bytes(r.getrandbits(8) for _ in range(r.choice([0, 1, 6])))
                 out.append((["hdr-%s-len%d" % ("valid" if good else "badcrc", ln), "cmd"],
                             streams.header_only(ln, fl, good=good) + pad + streams.command_frame(r)))
+    # frames at the very top of the 16-bit length field (length + 2 no longer fits 16 bits), between two short ones
+    for ln in ([0xFFFF, 0xFFFE] if not ctx.thorough() else [0xFFFF, 0xFFFE, 0xFFFD, 0x8000]):
+        for fl in ([0x84] if not ctx.thorough() else [0x84, 0x08, 0xC4]):
+            body = bytes(r.getrandbits(8) for _ in range(64)) * ((ln - 7) // 64) + bytes((ln - 7) % 64)
+            out.append((["cmd", "huge-len%d" % ln, "cmd"],
+                        streams.command_frame(r) + streams.raw_frame(fl, body) + streams.command_frame(r)))
     return out
 
 
@@ -76,7 +82,8 @@ def run_streams(ctx, nstreams, hostile=True, single_cuts=30, randoms=4, raise_ha
             ctx.count("elem:" + lb.split("-len")[0])
         ctx.count("stream-delivers=%s" % min(len(whole_d), 3))
         lines, metas = ["offline " + hx(s)], []
-        for label, chunks in streams.chunkings(r, s, single_cuts, randoms):
+        big = len(s) > 20000
+        for label, chunks in streams.chunkings(r, s, 5 if big else single_cuts, 1 if big else randoms):
             raise_at = ()
             if raise_handler and r.random() < 0.5:
                 raise_at = tuple(sorted(set(r.randrange(0, 6) for _ in range(r.randrange(1, 4)))))
